@@ -133,7 +133,7 @@ structure MTables where
 
 def chIn (c : Ch) (s : String) : Bool := s.toList.any fun d => d.toNat == c
 
-/-- `iterparse_character_subset(s)` (codepoints.py:117-205, `expand_ranges=False`): the loop over
+/-- `iterparse_character_subset(s)` (codepoints.py:117-207 incl. fix da42663, `expand_ranges=False`): the loop over
 `k`, with the local variables `escaped`, `on_range`, `char`; yields half-open ranges -/
 def iterparse (s : Array Ch) : Nat → Nat → Bool → Bool → Ch → List (Nat × Nat) → Option (List (Nat × Nat))
   | 0, _, _, _, _, _ => none
@@ -160,8 +160,10 @@ def iterparse (s : Array Ch) : Nat → Nat → Bool → Bool → Ch → List (Na
         if special && chIn s[k1 + 1]! "sSdDiIcCwWpP" then none
         else
           let (k2, e) := if special && chIn s[k1 + 1]! "-|.^?*+{}()[]" then (k1 + 1, s[k1 + 1]!) else (k1, e)
+          -- (fix da42663) `elif s[k + 1] == '\\': escaped = True`: the range ends with an escaped backslash
+          let escaped' := escaped || (special && s[k1 + 1]! == 92)
           if char > e then none
-          else iterparse s fuel (k2 + 1) escaped true char ((char, e + 1) :: acc)
+          else iterparse s fuel (k2 + 1) escaped' true char ((char, e + 1) :: acc)
     else if chIn c "|.^?*+{}()" then iterparse s fuel (k + 1) false false c (one c :: acc)
     else if c == 91 || c == 93 then
       if !escaped && length > 1 then none
